@@ -64,3 +64,11 @@ Example ex_same_structure :
   same_structure {| sel := [(0, PVar 1)]; unifs := [(PVar 1, PVar 0); (PVar 0, PVar 1000)]; cons := [] |}
                  {| sel := [(0, PVar 1)]; unifs := [(PVar 0, PVar 1000); (PVar 1, PVar 0)]; cons := [] |}.
 Proof. split; [reflexivity|]. split; [apply perm_swap | apply perm_nil]. Qed.
+
+(* the order of the UNNEST items of the emitted FROM list (model Core/Unnest.v of SortUnnestings, tied by
+   props/unnesttie.py) does not depend on the order in which the `in` conjuncts were written *)
+From LV Require Import Core.Unnest Core.UnnestOrder.
+
+Theorem C07_from_order_independent_of_conjunct_order :
+  forall us us', NoDup (map fst us) -> Permutation us us' -> sort_unnestings us = sort_unnestings us'.
+Proof. exact sort_order_independent. Qed.
